@@ -91,7 +91,11 @@ fn reads(total: usize, seed: u32) -> Vec<usize> {
 }
 
 pub fn judge(c: &Case, st: &mut Stats) -> Verdict {
-    let h = &c.header;
+    // the header (and every prefix of it) is parsed from this thread's reusable read buffer
+    crate::engine::in_arena(&c.header, |h| judge_at(c, h, st))
+}
+
+fn judge_at(c: &Case, h: &Vec<u8>, st: &mut Stats) -> Verdict {
     // one-shot
     let one = imp::auto(h);
     // "its header bytes": the candidate is a complete header on the wire (v1: the line through its CRLF, v2: 16 + the
@@ -445,7 +449,7 @@ pub fn run(r: &mut Runner) -> &'static str {
     let n = r.n(60_000, 1_500_000);
     r.random("c05.prefixes", n, 260, &gen_case, &judge);
     let n = r.n(150_000, 3_000_000);
-    r.random("c05.trait", n, 200, &|t| gen::gen_any_bytes(t).0, &judge_trait);
+    r.random("c05.trait", n, 200, &|t| gen::gen_any_bytes(t).0, &|x: &Vec<u8>, st: &mut Stats| crate::engine::in_arena(x, |v| judge_trait(v, st)));
     let work = |shard: usize, _n: usize, st: &mut Stats, _stop: &std::sync::atomic::AtomicBool| -> Option<(Vec<u8>, Fail)> {
         if shard != 0 {
             return None;
